@@ -300,6 +300,9 @@ func Sprint(value any) string {
 			break
 		}
 		if f := rv.Float(); f == math.Trunc(f) && math.Abs(f) < 1e21 {
+			if f == 0 {
+				return "0" // the product of 0 and -1 is a negative zero; it is still the number 0
+			}
 			return strconv.FormatFloat(f, 'f', -1, rv.Type().Bits())
 		}
 	}
